@@ -537,7 +537,7 @@ def check_property(prop, reg, args, seed):
         for v in violations:
             witness = v.get('witness')
             if witness is None and not v.get('native'):
-                witness = native.find_witness(prop, cfg, v, repo)
+                witness = native.find_witness(prop, cfg, v, repo, load_known())
                 v['witness'] = witness
             if v.get('needs_witness') and not witness:
                 # the proof lost one of its annotations and no concrete failing input was found:
